@@ -5,6 +5,7 @@ package seams
 import (
 	"errors"
 	"fmt"
+	"strings"
 
 	"verifsim/core"
 )
@@ -46,6 +47,11 @@ type FaultPlan struct {
 	Kinds   []Outcome // enabled kinds for random mode
 	Max     int       // max faults in random mode (0 = unlimited)
 
+	// SitePrefix / SiteLeft: independently of Mode, the next SiteLeft calls whose site name starts
+	// with SitePrefix fail before taking effect (a fault aimed at one step of an operation).
+	SitePrefix string
+	SiteLeft   int
+
 	Active bool // faults only fire while an operation under test is in flight
 	N      int  // decorated calls seen while active
 	Fired  int
@@ -77,6 +83,10 @@ func (p *FaultPlan) Next(site string, mutating bool) Outcome {
 		if (p.Max == 0 || p.Fired < p.Max) && len(p.Kinds) > 0 && p.R.Chance(p.RatePct, "fault?") {
 			out = p.Kinds[p.R.Intn(len(p.Kinds), "fault-kind")]
 		}
+	}
+	if out == OK && p.SiteLeft > 0 && p.SitePrefix != "" && strings.HasPrefix(site, p.SitePrefix) {
+		out = ErrBefore
+		p.SiteLeft--
 	}
 	if out == ErrAfter && !mutating {
 		out = ErrBefore
